@@ -302,13 +302,17 @@ Proof.
       inversion H; subst; clear H. destruct (reserve_view _ _ _ _ _ _ _ _ OP) as [CF LV]. split; [exact CF|].
       assert (CK : cfg_of st f k = Some ac0) by (unfold cfg_of; rewrite A; reflexivity).
       destruct o2; cbn [rout_of] in *; try rewrite CK; exact LV.
-    + destruct (walk_reserve_view _ _ _ _ _ _ _ _ H) as [CF LV]. split; [exact CF|].
+    + destruct (reserve_walk_inv _ _ _ _ _ _ _ _ H) as [r0 [W RR]].
+      destruct (walk_reserve_view _ _ _ _ _ _ _ _ W) as [CF LV]. split; [exact CF|].
       assert (CK : cfg_of st f k = None) by (unfold cfg_of; rewrite A; reflexivity).
+      destruct RR as [<-|[-> [-> [_ [-> _]]]]]; [|exact LV].
       destruct o; try exact (fun g j => eq_trans (LV g j) ltac:(destruct obs; reflexivity)).
       rewrite CK. destruct obs; exact LV.
   - (* ReserveIP / ReserveIANA / ReservePD *)
-    cbn [reg_step] in H. destruct (walk_reserve_view _ _ _ _ _ _ _ _ H) as [CF LV]. split; [exact CF|].
-    cbn [reg_ledger_step]. destruct obs as [k|]; destruct o; exact LV.
+    cbn [reg_step] in H. destruct (reserve_walk_inv _ _ _ _ _ _ _ _ H) as [r0 [W RR]].
+    destruct (walk_reserve_view _ _ _ _ _ _ _ _ W) as [CF LV]. split; [exact CF|].
+    cbn [reg_ledger_step]. destruct RR as [<-|[-> [-> [_ [-> _]]]]]; [|exact LV].
+    destruct obs as [k|]; destruct o; exact LV.
   - (* Release*InPool *)
     cbn [reg_step] in H. cbn [reg_ledger_step].
     destruct (assoc_find key_eqb k (r_allocs st f)) as [[ac0 ps0]|] eqn:A.
@@ -503,7 +507,9 @@ Lemma registry_reserve_unique v pfs ks st evs pre f x s k post :
     (lm_lookup a (registry_ledger v pfs pre f k) = None \/ lm_lookup a (registry_ledger v pfs pre f k) = Some s).
 Proof.
   intros H E. destruct (reg_run_split _ _ _ _ _ _ _ _ H E) as [ks1 [st1 [st2 [H1 H2]]]].
-  cbn [fst snd] in H2. cbn [reg_step] in H2. unfold walk in H2.
+  cbn [fst snd] in H2. cbn [reg_step] in H2.
+  destruct (reserve_walk_inv _ _ _ _ _ _ _ _ H2) as [r0 [W [<-|[X _]]]]; [|discriminate X]. clear H2. rename W into H2.
+  unfold walk in H2.
   destruct (assoc_find key_eqb k (r_allocs st1 f)) as [[ac ps]|] eqn:A; [|discriminate].
   destruct (acontains v ac x) eqn:C; [|discriminate].
   destruct (on_pool v st1 f k (mk_reserve v x s)) as [[sx ox]|] eqn:OP; [|discriminate].
